@@ -159,7 +159,14 @@ func (ct *compositeTypes) traverseType(typ cadence.Type) (checkRuntimeType bool)
 	case cadence.CompositeType: // struct, resource, event, contract, enum, attachment
 		newType := ct.add(typ)
 		if !newType {
-			return ct.abstractTypes[typ.ID()]
+			check, ok := ct.abstractTypes[typ.ID()]
+			if !ok {
+				// The type is still being traversed, i.e. it is a recursive type,
+				// so it is not known yet if it contains any abstract type.
+				// Check the runtime type, to not miss any runtime types.
+				return true
+			}
+			return check
 		}
 
 		check := false
